@@ -272,6 +272,11 @@ func (s *muxerStream) hasContent() bool {
 	return len(s.segments) >= 1
 }
 
+func (s *muxerStream) hasSegment(segmentID uint64) bool {
+	return segmentID < s.nextSegmentID &&
+		(s.nextSegmentID-segmentID) <= uint64(len(s.segments))
+}
+
 func (s *muxerStream) hasPart(segmentID uint64, partID uint64) bool {
 	firstID := s.nextSegmentID - uint64(len(s.segments))
 
@@ -339,7 +344,10 @@ func (s *muxerStream) handleMediaPlaylist(w http.ResponseWriter, r *http.Request
 						return nil
 					}
 
-					if s.hasContent() && s.hasPart(msnint, partint) {
+					// without _HLS_part, the request is for the complete segment
+					if s.hasContent() &&
+						((part != "" && s.hasPart(msnint, partint)) ||
+							(part == "" && s.hasSegment(msnint))) {
 						break
 					}
 
